@@ -856,56 +856,9 @@ func valOp(c px.Context, v string) string {
 	return "rt-val " + v + " " + syn.OracleSexp(text)
 }
 
-// floatOracle renders the float-text oracle of a type text: ((BITS xTEXT)…) for every float literal in it (the bounds of
-// Float types can only come from float literals: an Integer bound is refused); "" when there is none.  The literals
-// are collected from the PARSED expression, not from the resolved type: Accept() of a type that holds a default Init
-// dereferences nil and would stop the walk early.
-func floatOracle(c px.Context, text string) string {
-	if !strings.Contains(text, "Float") {
-		return ""
-	}
-	p := syn.Parse(text)
-	if p.Kind != "value" {
-		return ""
-	}
-	seen := map[uint64]bool{}
-	out := []string{}
-	var walk func(v px.Value, depth int)
-	walk = func(v px.Value, depth int) {
-		if depth > 200 {
-			return
-		}
-		switch x := v.(type) {
-		case px.Float:
-			if b := math.Float64bits(x.Float()); !seen[b] {
-				seen[b] = true
-				out = append(out, "("+strconv.FormatUint(b, 10)+" "+hx(px.ToString2(x, programFormat()))+")")
-			}
-		case *types.DeferredType:
-			for _, e := range x.Parameters() {
-				walk(e, depth+1)
-			}
-		case types.Deferred:
-			x.Arguments().Each(func(e px.Value) { walk(e, depth+1) })
-		case *types.HashEntry:
-			walk(x.Key(), depth+1)
-			walk(x.Value(), depth+1)
-		case *types.Hash:
-			x.EachPair(func(k, e px.Value) { walk(k, depth+1); walk(e, depth+1) })
-		case *types.Array:
-			x.Each(func(e px.Value) { walk(e, depth+1) })
-		}
-	}
-	_ = syn.Safely(func() px.Value { walk(p.Val, 0); return px.Undef })
-	if len(out) == 0 {
-		return ""
-	}
-	return " (" + strings.Join(out, " ") + ")"
-}
-
 // typeOp renders a model-compared rt-type op line: the text, the regexp.Compile oracle and the float-text oracle
 func typeOp(c px.Context, t string) string {
-	return "rt-type " + hx(t) + " " + syn.OracleSexp(t) + floatOracle(c, t)
+	return "rt-type " + hx(t) + " " + syn.OracleSexp(t) + syn.FloatOracle(t)
 }
 
 func gen(g *core.G) {
@@ -1077,7 +1030,7 @@ func gen(g *core.G) {
 		}
 	}
 	for _, t := range []string{"Runtime", "Runtime['ruby']", "Runtime['go']", "Runtime['ruby', 'x']", "Runtime['ruby', 'x', Regexp[/a/]]", "Runtime['ruby', 'x', Regexp]", "Runtime['ruby', '']",
-		"TypeReference", "TypeReference['x']", "TypeReference['']", "TypeReference['it\\'s \\\\']", "TypeReference['UnresolvedReference']", "Typereference['x']", "Foo", "My::Thing", "Catalogentry", "A::B",
+		"TypeReference", "TypeReference['x']", "TypeReference['']", "TypeReference['it\\'s \\\\']", "TypeReference['UnresolvedReference']", "Typereference['x']", "Foo", "My::Thing", "Catalogentry", "My::Other",
 		"Foo['x']", "My::Thing['Foo']", "Array[Foo]", "Struct[{a => My::Thing, b => Runtime['ruby', 'x']}]", "Optional[TypeReference['q']]",
 		"Notundef", "Notundef[String]", "RegExp[/a/]", "Richdata", "Scalardata", "Semver", "Semverrange", "SemverRange", "TimeSpan", "TimeStamp", "Typeset", "Uri", "Struct[{a => Richdata}]"} {
 		emitValid(t)
